@@ -181,6 +181,92 @@ def register(R):
                f' and result is item(self._sequences[s], {NORM} - self._seq_idxs[s]))'],
       witness=dict(index='index'), bounded='bounded_merged'))
 
+  # ---- slicing the concatenation: a chain of readers that tile [start, stop) ---------------------------------------
+  from pyvc.builtins_ import nparts_fn, part_fn
+  rd_seq = z3.Function('reader_seq', Obj, z3.IntSort())       # ghost: which sub-sequence a reader reads
+  rd_lo = z3.Function('reader_lo', Obj, z3.IntSort())         # ghost: from which offset
+  rd_hi = z3.Function('reader_hi', Obj, z3.IntSort())         # ghost: up to which offset (exclusive)
+
+  @R.spec
+  def nreaders(it, a, k):
+    '''number of readers chained in the result of slice(): 0 for an empty iterator'''
+    v = a[0]
+    if isinstance(v, VIter):
+      return VInt(v.src.n - v.pos)
+    return VInt(nparts_fn(it.to_obj(v)))
+
+  @R.spec
+  def reader(it, a, k):
+    v = a[0]
+    if isinstance(v, VIter):
+      return VOpaque(z3.Const('no_reader', Obj))
+    return VOpaque(part_fn(it.to_obj(v), it.to_int(a[1])))
+
+  @R.spec
+  def r_seq(it, a, k):
+    return VInt(rd_seq(it.to_obj(a[0])))
+
+  @R.spec
+  def r_lo(it, a, k):
+    return VInt(rd_lo(it.to_obj(a[0])))
+
+  @R.spec
+  def r_hi(it, a, k):
+    return VInt(rd_hi(it.to_obj(a[0])))
+
+  def _reader_post(it, env2, old):
+    # a single reader is a chain of one part: itself
+    r = env2['result'].t
+    it.assume(nparts_fn(r) == 1)
+    it.assume(part_fn(r, 0) == r)
+
+  # ASSUMED (one-line constructor call): _index_slice(s, a, b) builds the reader of sub-sequence s over [a, b or its end);
+  # what such a reader delivers is the contract of _RangeIterator.__next__ (proved).
+  R.add(Contract(
+      f'{ITER}::MergedSequences._index_slice', 'trusted', types=dict(self='MergedSequences', seq_idx='int', start='int', stop='int?'), ret='obj',
+      requires=['0 <= seq_idx and seq_idx < len(self._sequences)'], post_hook=_reader_post,
+      ensures=['r_seq(result) == seq_idx', 'r_lo(result) == start',
+               'r_hi(result) == ite(stop is None, len(self._sequences[seq_idx]), stop)']))
+
+  S_ = 'ite(lo_arg is None, 0, ite(lo_arg < 0, max(lo_arg + {L}, 0), min(lo_arg, {L})))'.format(L=L_)
+  E_ = 'ite(hi_arg is None, {L}, ite(hi_arg < 0, max(hi_arg + {L}, 0), min(hi_arg, {L})))'.format(L=L_)
+  G = lambda r, x: f'(self._seq_idxs[r_seq({r})] + {x})'       # position in the concatenation of offset x of the reader's sub-sequence
+
+  def _slice_setup(it, env):
+    env['slice_'] = VSlice(it.ghost['lo_arg'], it.ghost['hi_arg'], NONE)
+
+  R.add(Contract(
+      f'{ITER}::MergedSequences.slice', P, types=dict(self='MergedSequences', slice_='none'), ghost=dict(lo_arg='int?', hi_arg='int?'), setup=_slice_setup,
+      site_ghost=dict(lo_arg=lambda it, env: env['slice_'].lo, hi_arg=lambda it, env: env['slice_'].hi),
+      requires=MS_INV,
+      ensures=[
+          # nothing to deliver: no reader
+          f'implies({S_} >= {E_}, nreaders(result) == 0)',
+          f'implies({S_} < {E_}, nreaders(result) >= 1)',
+          # the readers tile [start, stop) of the concatenation: the first begins at start, each one begins where the previous
+          # one ended, the last ends at stop, and every reader stays inside its own sub-sequence
+          f'implies({S_} < {E_}, {G("reader(result, 0)", "r_lo(reader(result, 0))")} == {S_})',
+          f'implies({S_} < {E_}, {G("reader(result, nreaders(result) - 1)", "r_hi(reader(result, nreaders(result) - 1))")} == {E_})',
+          f'forall(lambda t: {G("reader(result, t)", "r_hi(reader(result, t))")} == {G("reader(result, t + 1)", "r_lo(reader(result, t + 1))")}, 0, nreaders(result) - 1)',
+          'forall(lambda t: 0 <= r_seq(reader(result, t)) and r_seq(reader(result, t)) < len(self._sequences) and 0 <= r_lo(reader(result, t))'
+          ' and r_lo(reader(result, t)) <= r_hi(reader(result, t)) and r_hi(reader(result, t)) <= len(self._sequences[r_seq(reader(result, t))]), 0, nreaders(result))',
+      ],
+      loops={0: dict(invariant=[
+          'start.seq_idx + 1 <= i_seq or i_seq == start.seq_idx + 1', 'len(sequences) == i_seq - start.seq_idx',
+          'forall(lambda t: r_seq(sequences[t]) == start.seq_idx + t and r_hi(sequences[t]) == len(self._sequences[start.seq_idx + t])'
+          ' and r_lo(sequences[t]) == ite(t == 0, start.idx, 0), 0, len(sequences))'])},
+      witness=dict(start='lo_arg', stop='hi_arg', n='len(self._sequences)'), bounded='bounded_merged',
+      note='slice / iteration of the merged sequence = a chain of readers that tile exactly [start, stop), in order, without gap or overlap'))
+
+  R.add(Contract(
+      f'{ITER}::MergedSequences.__iter__', P, types=dict(self='MergedSequences'), requires=MS_INV,
+      ensures=[
+          f'implies({L_} == 0, nreaders(result) == 0)',
+          f'implies({L_} > 0, nreaders(result) >= 1 and {G("reader(result, 0)", "r_lo(reader(result, 0))")} == 0'
+          f' and {G("reader(result, nreaders(result) - 1)", "r_hi(reader(result, nreaders(result) - 1))")} == {L_})',
+          f'forall(lambda t: {G("reader(result, t)", "r_hi(reader(result, t))")} == {G("reader(result, t + 1)", "r_lo(reader(result, t + 1))")}, 0, nreaders(result) - 1)'],
+      bounded='bounded_merged', note='iteration = the readers tile the whole concatenation [0, len)'))
+
   # ---- partition lemmas over the contract's spec functions only ---------------------------
   tys = dict(s='int', e='int', i='int', k='int')
   pre = ['s <= e', 'k >= 1', '0 <= i < k']
